@@ -28,7 +28,7 @@ PREFIX = "C01"
 ALPHAS = [1, 2, 3, 0.5]
 RULEPAIRS = [(t, r) for t in M.RULES for r in M.RULES]
 IMAGES = [("id", lambda v: float(v)), ("x-3", lambda v: float(v) - 3.0), ("x/2", lambda v: v / 2.0), ("x/8+1", lambda v: v / 8.0 + 1.0),
-          ("0.1x+0.3", lambda v: 0.1 * v + 0.3), ("1e3x-7", lambda v: 1e3 * v - 7.0)]
+          ("0.1x+0.3", lambda v: 0.1 * v + 0.3), ("1e3x-7", lambda v: 1e3 * v - 7.0), ("x/2^30", lambda v: v / float(2 ** 30))]
 
 
 def bounds(tier, seed):
@@ -61,7 +61,7 @@ def harnesses(tier, seed):
     if quick:
         L = 7
         grids = A.grids(L, 5) + A.grids(L, 6)
-        images = [IMAGES[1], IMAGES[[0, 2, 3, 4, 5][seed % 5]]]
+        images = [IMAGES[1], IMAGES[[6, 0, 2, 3, 4, 5][seed % 6]]]
         rmax = 3
         vgrids = A.grids(6, 5) + A.grids(6, 6)
     else:
